@@ -779,6 +779,11 @@ class Gen:
             if r <= 5:
                 lv = self.lvalue(prm.t, allow_reserved=True)
                 if lv is not None:
+                    if prm.t != '$' and self.chance(0.3):
+                        # +v is an expression, i.e. passed by value
+                        self.note('byval_plus_arg')
+                        args.append(A.Un('pos', lv, lv.t))
+                        continue
                     self.note('byval_paren_arg')
                     args.append(A.Paren(lv))
                     continue
@@ -1164,6 +1169,24 @@ class Gen:
             self.do_depth += 1
             self.for_depth = 0
         body = self.block(depth - 1)
+        if kind != 'while' and n >= 2 and depth >= 1 and \
+                self.chance(self.p.nested_exit * 0.5):
+            # an inner DO loop left early by EXIT DO, with work after it
+            iv = self.new_scalar('%', reserved=True)
+            ilv = A.LV(iv.name, [], [], '%')
+            body.append(A.Assign(ilv, self.mklit('%', 0)))
+            body.append(A.Do(self.pick(['forever', 'loop_until']),
+                             None, [
+                A.Assign(ilv, A.Bin('+', ilv, self.mklit('%', 1), '%')),
+                A.Print([A.Str('in do'), ';', ilv]),
+                A.IfLine(A.Bin('>=', ilv, self.mklit('%', 2), '%'),
+                         [A.Exit('DO')], None),
+                A.Print([A.Str('not after exit')])]))
+            if body[-1].kind == 'loop_until':
+                body[-1].cond = A.Bin('>=', ilv, self.mklit('%', 3), '%')
+            body.append(A.Print([A.Str('after inner do'), ';', clv]))
+            iv.reserved = False
+            self.note('exit_do_in_nested_do')
         self.do_depth, self.for_depth = saved_depths
         c.rng = None
         incr = A.Assign(clv, A.Bin('+', clv, self.mklit(c.t, 1), c.t))
@@ -1202,7 +1225,7 @@ class Gen:
         mixed = self.p.mixed_case_types and sel.t != '$'
         for _ in range(self.i(0, 3)):
             clauses = []
-            for _ in range(self.i(1, 2)):
+            for _ in range(self.pick([1, 1, 2, 2, 3, 4])):
                 k = self.i(0, 2)
                 if mixed and self.chance(0.5):
                     # clause values of any numeric type (outside R's subset)
